@@ -109,54 +109,27 @@ Proof.
   apply acc_bind; [apply acc_sa_setitem|]. intros _. exact IH.
 Qed.
 
-Lemma acc_set_loop_live : forall rng k, acc (set_loop_live rng k).
-Proof.
-  induction rng; intro k; cbn [set_loop_live]; [apply acc_ret|].
-  apply acc_bind; [apply acc_get|]. intro l.
-  destruct (nth_error l k); [|apply acc_ret].
-  apply acc_bind; [apply acc_sa_setitem|]. intros _. apply IHrng.
-Qed.
-
 Lemma acc_sa_setslice : forall sl v, acc (sa_setslice sl v).
 Proof.
   intros sl v. unfold sa_setslice. apply acc_bind; [apply acc_get|]. intro l.
   apply acc_bind; [apply (acc_lift_ro _ _ _ _ (fun _ => adjust sl (zlen l)))|].
-  intros [[start stop] step]. destruct (step =? 1).
-  - destruct v; try apply acc_ret;
-      (apply acc_bind; [apply acc_del_loop|intros _; try apply acc_ins_loop; apply acc_raise]).
-  - destruct v; try apply acc_raise.
-    + destruct (Nat.eqb _ _); [apply acc_set_loop|apply acc_raise].
-    + destruct (Nat.eqb _ _); [apply acc_set_loop_live|apply acc_raise].
+  intros [[start stop] step].
+  assert (A1 : acc (match materialise l v with
+                    | None => raise TypeError
+                    | Some w => del_loop (length (range start stop step)) start ;;; ins_loop start w
+                    end)).
+  { destruct (materialise l v); [|apply acc_raise].
+    apply acc_bind; [apply acc_del_loop|intros _; apply acc_ins_loop]. }
+  destruct (step =? 1).
+  - destruct v; try exact A1. apply acc_ret.
+  - destruct (materialise l v); [|apply acc_raise].
+    destruct (Nat.eqb _ _); [apply acc_set_loop|apply acc_raise].
 Qed.
 
 Lemma acc_sa_extend : forall v, acc (sa_extend v).
 Proof.
   intro v. unfold sa_extend. apply acc_bind; [apply acc_get|]. intro l.
   destruct (materialise l v); [|apply acc_raise]. apply acc_for_each. apply acc_sa_append.
-Qed.
-
-Lemma acc_then_ret : forall T (m : LM T) (rv : retv), acc m -> acc (m ;;; ret rv).
-Proof. intros. apply acc_bind; [assumption|]. intros _. apply acc_ret. Qed.
-
-(* every operation except remove(absent) and *= keeps the balance, whatever it returns or raises *)
-Lemma acc_list_op : forall op, (forall x, op <> LRemove x) -> (forall n, op <> LIMul n) ->
-  acc (sa_list_op op).
-Proof.
-  intros op H1 H2. destruct op; cbn [sa_list_op]; try apply acc_then_ret.
-  - apply acc_sa_append.
-  - exfalso. eapply H1. reflexivity.
-  - apply acc_sa_insert.
-  - apply acc_sa_setitem.
-  - apply acc_sa_setslice.
-  - apply acc_sa_delitem.
-  - apply acc_sa_delslice.
-  - apply acc_sa_extend.
-  - apply acc_sa_extend.
-  - apply acc_bind; [apply acc_sa_pop|]. intro. apply acc_ret.
-  - apply acc_sa_clear.
-  - exfalso. eapply H2. reflexivity.
-  - unfold b_upd. apply acc_lift_perm. intros c t c' _ H. inv H. split; [exact I|apply Permutation_rev].
-  - apply acc_bind; [apply (acc_lift_ro _ _ _ _ (fun l => py_getslice l sl))|]. intro. apply acc_ret.
 Qed.
 
 Lemma remove_first_perm : forall x l l', remove_first x l = Some l' -> Permutation l (x :: l').
@@ -181,6 +154,41 @@ Proof.
   destruct (Z.eqb_spec x y); [discriminate|]. cbn [orb] in H. rewrite (IH H). reflexivity.
 Qed.
 
+Lemma acc_sa_remove : forall x, acc (sa_remove x).
+Proof.
+  intro x. apply acc_intro. intros [l g] r s' H z.
+  unfold sa_remove, bind, get, b_upd, lift, py_remove in H. cbn [fst snd] in H.
+  destruct (mem x l) eqn:E; unfold fire, ret in H; cbn [fst snd] in H.
+  - destruct (remove_first_mem _ _ E) as [r' E']. rewrite E' in H. inv H.
+    unfold bal. cbn [fst snd].
+    pose proof (countZ_perm z _ _ (remove_first_perm _ _ _ E')) as P. rewrite countZ_cons in P.
+    rewrite net_app. cbn [net ev_delta]. liaif.
+  - rewrite (remove_first_absent _ _ E) in H. inv H. reflexivity.
+Qed.
+
+Lemma acc_then_ret : forall T (m : LM T) (rv : retv), acc m -> acc (m ;;; ret rv).
+Proof. intros. apply acc_bind; [assumption|]. intros _. apply acc_ret. Qed.
+
+(* every operation except *= keeps the balance, whatever it returns or raises *)
+Lemma acc_list_op : forall op, (forall n, op <> LIMul n) -> acc (sa_list_op op).
+Proof.
+  intros op H2. destruct op; cbn [sa_list_op]; try apply acc_then_ret.
+  - apply acc_sa_append.
+  - apply acc_sa_remove.
+  - apply acc_sa_insert.
+  - apply acc_sa_setitem.
+  - apply acc_sa_setslice.
+  - apply acc_sa_delitem.
+  - apply acc_sa_delslice.
+  - apply acc_sa_extend.
+  - apply acc_sa_extend.
+  - apply acc_bind; [apply acc_sa_pop|]. intro. apply acc_ret.
+  - apply acc_sa_clear.
+  - exfalso. eapply H2. reflexivity.
+  - unfold b_upd. apply acc_lift_perm. intros c t c' _ H. inv H. split; [exact I|apply Permutation_rev].
+  - apply acc_bind; [apply (acc_lift_ro _ _ _ _ (fun l => py_getslice l sl))|]. intro. apply acc_ret.
+Qed.
+
 Lemma py_imul_1 : forall (l : list item), py_imul l 1 = l.
 Proof. intro l. unfold py_imul. cbn. apply app_nil_r. Qed.
 
@@ -190,22 +198,16 @@ Theorem list_op_accounted : forall op l g r l' g',
   forall x, countZ x l' - countZ x l = net x g' - net x g.
 Proof.
   intros op l g r l' g' Hg H x.
-  assert (D : (exists y, op = LRemove y) \/ (exists n, op = LIMul n) \/
-              ((forall y, op <> LRemove y) /\ (forall n, op <> LIMul n))).
-  { destruct op; try (right; right; split; intros; discriminate); eauto. }
-  destruct D as [[y ->]|[[n ->]|[D1 D2]]].
-  - cbn [list_acct_guard] in Hg. destruct (remove_first_mem _ _ Hg) as [r' E].
-    cbn [sa_list_op] in H. unfold sa_remove, bind, fire, b_upd, lift, ret, py_remove in H.
-    cbn [fst snd] in H. rewrite E in H. inv H.
-    pose proof (countZ_perm x _ _ (remove_first_perm _ _ _ E)) as P. rewrite countZ_cons in P.
-    rewrite net_app. cbn [net ev_delta]. liaif.
+  assert (D : (exists n, op = LIMul n) \/ (forall n, op <> LIMul n)).
+  { destruct op; try (right; intros; discriminate); eauto. }
+  destruct D as [[n ->]|D2].
   - cbn [sa_list_op] in H. unfold bind, b_upd, lift, ret in H. cbn [fst snd] in H. inv H.
     cbn [list_acct_guard] in Hg. destruct (n =? 1) eqn:E1.
     + assert (n = 1) by lia. subst. rewrite py_imul_1. lia.
     + destruct l; [|discriminate]. unfold py_imul. destruct (n <=? 0); [cbn; lia|].
       replace (concat (repeat [] (Z.to_nat n))) with (@nil Z); [cbn; lia|].
       induction (Z.to_nat n); cbn; auto.
-  - destruct (acc_list_op op D1 D2 _ _ _ I H) as [_ B]. specialize (B x).
+  - destruct (acc_list_op op D2 _ _ _ I H) as [_ B]. specialize (B x).
     unfold bal in B. cbn [fst snd] in B. lia.
 Qed.
 
@@ -342,15 +344,18 @@ Definition sa_setslice_body (l : list item) (start stop step : Z) (v : value) : 
   if step =? 1 then
     match v with
     | VSelf => ret tt
-    | VList w | VIter w => del_loop (length (range start stop step)) start ;;; ins_loop start w
-    | VNonIter => del_loop (length (range start stop step)) start ;;; raise TypeError
+    | _ =>
+      match materialise l v with
+      | None => raise TypeError
+      | Some w => del_loop (length (range start stop step)) start ;;; ins_loop start w
+      end
     end
   else
-    let rng := range start stop step in
-    match v with
-    | VIter _ | VNonIter => raise TypeError
-    | VList w => if Nat.eqb (length w) (length rng) then set_loop (combine rng w) else raise ValueError
-    | VSelf => if Nat.eqb (length l) (length rng) then set_loop_live rng 0 else raise ValueError
+    match materialise l v with
+    | None => raise TypeError
+    | Some w =>
+        let rng := range start stop step in
+        if Nat.eqb (length w) (length rng) then set_loop (combine rng w) else raise ValueError
     end.
 
 Lemma sa_setslice_unfold : forall sl v l g,
@@ -393,7 +398,6 @@ Lemma sa_setslice_eq : forall sl v l g, list_eq_guard l (LSetSlice sl v) = true 
              (fst (py_setslice_res l sl v), (snd (py_setslice_res l sl v), g')).
 Proof.
   intros sl v l g Hg. rewrite sa_setslice_unfold. unfold py_setslice_res.
-  cbn [list_eq_guard] in Hg.
   destruct (adjust sl (zlen l)) as [[[start stop] step]|e] eqn:Ha; [|eexists; reflexivity].
   destruct (adjust_bounds _ _ _ _ _ (zlen_nonneg l) Ha) as [Hs0 [Hpos Hneg]].
   unfold py_setslice. rewrite Ha. unfold sa_setslice_body.
@@ -402,29 +406,18 @@ Proof.
     destruct v as [w|w| |]; cbn [materialise fst snd].
     + apply step1_seq; assumption.
     + apply step1_seq; assumption.
-    + apply andb_prop in Hg. destruct Hg as [G1 G2].
+    + cbn [list_eq_guard] in Hg. rewrite Ha in Hg. cbn [Z.eqb Pos.eqb] in Hg.
+      apply andb_prop in Hg. destruct Hg as [G1 G2].
       assert (start = 0) by lia. assert (Z.max start stop = zlen l) by lia. subst start.
       rewrite H0. unfold zlen. rewrite Nat2Z.id, skipn_all. cbn [Z.to_nat firstn app].
       rewrite app_nil_r. eexists. reflexivity.
-    + apply Nat.eqb_eq in Hg. rewrite Hg. cbn [del_loop]. eexists. reflexivity.
-  - destruct v as [w|w| |]; cbn [materialise fst snd].
-    + destruct (Nat.eqb (length w) (length (range start stop step))) eqn:El.
-      * destruct (set_loop_assign (combine (range start stop step) w) l g) as [g' E].
-        { intros [i x] Hin. apply in_combine_l in Hin. cbn [fst].
-          eapply range_in_bounds; eauto using zlen_nonneg. }
-        exists g'. rewrite E. reflexivity.
-      * eexists. reflexivity.
-    + discriminate.
-    + destruct (Nat.eqb (length l) (length (range start stop step))) eqn:El.
-      * cbn [negb orb] in Hg. apply Nat.eqb_eq in El. apply Nat.leb_le in Hg.
-        destruct l as [|a [|b l]]; [| |cbn [length] in Hg; lia].
-        -- destruct (range start stop step); [|discriminate]. eexists. reflexivity.
-        -- destruct (range start stop step) as [|i [|j r]] eqn:Er; try discriminate.
-           assert (0 <= i < zlen [a]).
-           { eapply range_in_bounds; eauto using zlen_nonneg. rewrite Er. left. reflexivity. }
-           assert (i = 0) by (unfold zlen in *; cbn [length] in *; lia). subst i.
-           eexists. reflexivity.
-      * eexists. reflexivity.
+    + eexists. reflexivity.
+  - destruct (materialise l v) as [w|]; cbn [fst snd]; [|eexists; reflexivity].
+    destruct (Nat.eqb (length w) (length (range start stop step))) eqn:El.
+    + destruct (set_loop_assign (combine (range start stop step) w) l g) as [g' E].
+      { intros [i x] Hin. apply in_combine_l in Hin. cbn [fst].
+        eapply range_in_bounds; eauto using zlen_nonneg. }
+      exists g'. rewrite E. reflexivity.
     + eexists. reflexivity.
 Qed.
 
@@ -438,8 +431,8 @@ Proof.
   intros op l g Hg. unfold agrees.
   destruct op; cbn [sa_list_op py_list_op].
   - (* append *) unfold sa_append, bind, fire, b_upd, lift, ret. cbn. auto.
-  - (* remove *) unfold sa_remove, bind, fire, b_upd, lift, ret. cbn [fst snd].
-    destruct (py_remove l x); cbn; auto.
+  - (* remove *) unfold sa_remove, bind, get, b_upd, lift. cbn [fst snd].
+    destruct (mem x l); unfold fire, ret; cbn [fst snd]; destruct (py_remove l x); cbn; auto.
   - (* insert *) unfold sa_insert, bind, fire, b_upd, lift, ret. cbn. auto.
   - (* setitem *) unfold sa_setitem, bind, b_getitem, fire, b_upd, lift, ret. cbn [fst snd].
     unfold py_getitem, py_setitem.
@@ -514,12 +507,13 @@ Proof.
   specialize (IH l1 g1 G2 x). destruct (sa_list_run r (l1, g1)) as [xs [l2 g2]]. lia.
 Qed.
 
-(* slice assignment of a real sequence: no guard for any start / stop / step *)
-Corollary list_slice_assignment_eq_python : forall start stop step w l g,
-  let op := LSetSlice (mkslice start stop step) (VList w) in
+(* slice assignment of anything but the collection itself (list, tuple, iterator, non-iterable):
+   no guard for any start / stop / step *)
+Corollary list_slice_assignment_eq_python : forall start stop step v l g, v <> VSelf ->
+  let op := LSetSlice (mkslice start stop step) v in
   fst (sa_list_op op (l, g)) = fst (py_list_op l op) /\
   fst (snd (sa_list_op op (l, g))) = snd (py_list_op l op).
 Proof.
-  intros start stop step w l g. apply list_op_eq_python.
-  cbn [list_eq_guard]. destruct (adjust _ _) as [[[a b] c]|]; reflexivity.
+  intros start stop step v l g Hv. apply list_op_eq_python.
+  destruct v; try reflexivity. congruence.
 Qed.
